@@ -312,6 +312,11 @@ pub fn arr_to_i64(arr: &[u8]) -> Result<i64, ToolError> {
         return Err(ToolError::ReadI64Overflow(Vec::from(arr)));
     }
 
+    if arr.is_empty() {
+        // like arr_to_u64: an empty payload is the value 0
+        return Ok(0);
+    }
+
     if arr[0] > 127 {
         if arr.len() == 8 {
             Ok(i64::from_be_bytes(arr.try_into().expect("[u8;8] should be convertible to i64")))
